@@ -753,3 +753,92 @@ func RelockAfterLateRenewalAnswer(L time.Duration, k int, gap time.Duration) (ou
 	la.Unlock()
 	return out
 }
+
+// RelockBehindSlowDeleteAnswer: one Locker shared by two goroutines. The second is parked in Lock() (the local
+// wait) while the first unlocks; the storage removes the record at once, but the answer of that Delete is on its
+// way for a quarter of a lease. Whenever the second goroutine gets the lock (after the Unlock has returned, or
+// already while the answer is on its way), its tenure is a tenure like any other: it stays 2.5 leases and a Locker of
+// another provider spinning TryLock must never get the lock - the tail of the first tenure's Unlock must not touch
+// the upkeep of the second.
+func RelockBehindSlowDeleteAnswer(L time.Duration) (out Outcome) {
+	stop := canary()
+	defer func() { out.Stall = stop() }()
+	inner := inmem.New()
+	tA := New(inner)
+	pa := dist.NewKvsLockProvider(tA, "/lt/")
+	pb := dist.NewKvsLockProvider(inner, "/lt/")
+	for _, p := range []dist.LockProvider{pa, pb} {
+		dist.VerifSetLeaseTTL(p, L)
+		defer p.Shutdown()
+	}
+	g := tA.Gate("Delete#1:after")
+	la, lb := pa.NewLocker("x"), pb.NewLocker("x")
+	la.Lock()
+	second := make(chan time.Time, 1)
+	go func() { la.Lock(); second <- time.Now() }() // parks in the local wait
+	time.Sleep(L / 10)
+	unlocked := make(chan struct{})
+	go func() { la.Unlock(); close(unlocked) }()
+	if !Arrived(g, 10*time.Second) {
+		close(g.Release)
+		<-unlocked
+		<-second
+		la.Unlock()
+		return Outcome{Skipped: "the Delete did not come"}
+	}
+	time.Sleep(L / 4)
+	close(g.Release) // the answer of the Delete arrives
+	select {
+	case <-unlocked:
+	case <-time.After(20 * time.Second):
+		return Outcome{Skipped: "Unlock did not return"}
+	}
+	var t0 time.Time
+	select {
+	case t0 = <-second:
+	case <-time.After(20 * time.Second):
+		return Outcome{Skipped: "the second Lock did not return"}
+	}
+	for time.Since(t0) < 5*L/2 {
+		if lb.TryLock(context.Background()) {
+			out.Sig = "two-holders-after-relock-behind-a-slow-delete-answer"
+			out.What = fmt.Sprintf("lease %v: a second goroutine was parked in Lock() of the same Locker while the holder unlocked; the storage removed the record at once and answered the Delete a quarter of a lease later; %v into the second goroutine's tenure another provider's TryLock succeeded although the holder has not unlocked; storage calls: %v", L, time.Since(t0).Round(time.Millisecond), tA.Events())
+			out.TimeBound = true
+			lb.Unlock()
+			break
+		}
+		time.Sleep(L / 10)
+	}
+	la.Unlock()
+	return out
+}
+
+// LongLeaseTenure: a provider whose lease is (much) longer than the package default of 10 s. The lock is held for
+// watch (more than the default lease, less than half of L, so no renewal is due yet); a Locker of another provider
+// with the same long lease spinning TryLock must never get the lock: the record lives one lease of ITS provider. The
+// margins are seconds; no verdict here depends on timely timers.
+func LongLeaseTenure(L, watch time.Duration) (out Outcome) {
+	stop := canary()
+	defer func() { out.Stall = stop() }()
+	inner := inmem.New()
+	pa := dist.NewKvsLockProvider(inner, "/lt/")
+	pb := dist.NewKvsLockProvider(inner, "/lt/")
+	for _, p := range []dist.LockProvider{pa, pb} {
+		dist.VerifSetLeaseTTL(p, L)
+		defer p.Shutdown()
+	}
+	la, lb := pa.NewLocker("x"), pb.NewLocker("x")
+	la.Lock()
+	t0 := time.Now()
+	for time.Since(t0) < watch {
+		if lb.TryLock(context.Background()) {
+			out.Sig = "two-holders-during-a-long-lease"
+			out.What = fmt.Sprintf("lease %v (the package default is 10 s): %v into the tenure, before the first renewal was due, another provider's TryLock succeeded although the holder has not unlocked", L, time.Since(t0).Round(time.Millisecond))
+			lb.Unlock()
+			break
+		}
+		time.Sleep(100 * time.Millisecond)
+	}
+	la.Unlock()
+	return out
+}
